@@ -309,6 +309,39 @@ def row_width(body):
     return width
 
 
+def deferred_deliveries(nbody, vis, ifields, fn):
+    """The tables a reader function hands over after its attribute loop, in source order:
+         if let Some(table) = SLOT { VIS.visit_x(table)?; }                                             -> (SLOT, visit_x, None)
+         if let Some(table) = SLOT { if !table.is_empty() || (interests.f1 && interests.f2) { VIS.visit_x(table)?; } }
+                                                                                                        -> (SLOT, visit_x, [f1, f2])
+    nbody: the normalised function body.  Fails closed on any other `if let Some(table) = …` block."""
+    out = []
+    plain = re.compile(r"^\{ %s\.(visit_\w+)\(table\)\?; \}$" % re.escape(vis))
+    guarded = re.compile(r"^\{ if !table\.is_empty\(\) \|\| \(interests\.([a-z0-9_]+)((?: && interests\.[a-z0-9_]+)+)\) \{ %s\.(visit_\w+)\(table\)\?; \} \}$" % re.escape(vis))
+    for m in re.finditer(r"if let Some\(table\) = (\w+) \{", nbody):
+        b = m.end() - 1
+        e = match_close(nbody, b)
+        block = nbody[b:e + 1]
+        pm = plain.match(block)
+        if pm:
+            out.append((m.group(1), pm.group(1), None))
+            continue
+        gm = guarded.match(block)
+        if gm:
+            flags = [gm.group(1)] + re.findall(r"interests\.([a-z0-9_]+)", gm.group(2))
+            for f in flags:
+                if ifields is not None and f not in ifields:
+                    raise Fail("fn %s: the delivery of %s consults interests.%s, which is not a field of the interests struct" % (fn, m.group(1), f))
+            if len(set(flags)) != len(flags):
+                raise Fail("fn %s: the delivery of %s names an interest twice" % (fn, m.group(1)))
+            out.append((m.group(1), gm.group(3), flags))
+            continue
+        raise Fail("fn %s: a table is handed over after the loop in a way the translator does not know: if let Some(table) = %s %s" % (fn, m.group(1), block[:240]))
+    if nbody.count("Some(table)") != len(out):
+        raise Fail("fn %s: `Some(table)` occurs outside the known delivery blocks" % fn)
+    return out
+
+
 def gstr(s):
     return "[" + ";".join(str(ord(c)) for c in s) + "] (* %s *)" % s.replace("*)", "* )")
 
@@ -426,14 +459,18 @@ def generate():
             elif act.startswith("AParse (DStore") and act.endswith("false)"):
                 raise Fail("fn %s, arm `%s`: a `get_or_insert_with` table arm without a recognisable row loop" % (fn, pattern))
         flags_event = (vis + ".visit_deprecated_and_synthetic_attribute(is_deprecated, is_synthetic)?;") in nbody
-        # deferred deliveries after the loop:  if let Some(table) = SLOT { VIS.visit_…(table)?; }
-        deferred = re.findall(r"if let Some\(table\) = (\w+) \{ %s\.visit_\w+\(table\)\?; \}" % re.escape(vis), nbody)
+        # deferred deliveries after the loop
+        deferred_all = deferred_deliveries(nbody, vis, ifields, fn)
+        deferred = [d[0] for d in deferred_all]
+        whole = [(d[0], d[2]) for d in deferred_all if d[2] is not None]
         out.append("Definition %s_arms : list arm := [" % cname)
         out.append(";\n".join(lines))
         out.append("].")
-        out.append("Definition %s_table : ctx_table := mkCtx %s_arms %s [%s] [%s] [%s]." % (
+        out.append("Definition %s_table : ctx_table := mkCtx %s_arms %s [%s] [%s] [%s] [%s]." % (
             cname, cname, "true" if flags_event else "false",
-            "; ".join(gstr_plain(d) for d in deferred), "; ".join(gstr_plain(f) for f in ifields), "; ".join(widths)))
+            "; ".join(gstr_plain(d) for d in deferred),
+            "; ".join("(%s, [%s])" % (gstr(sl), "; ".join(gstr(f) for f in fl)) for sl, fl in whole),
+            "; ".join(gstr_plain(f) for f in ifields), "; ".join(widths)))
         out.append("")
         summary[cname] = len(arms)
 
